@@ -42,6 +42,10 @@ fn events() -> Vec<(&'static str, Value)> {
         ("power_levels", json!({"type": "m.room.power_levels", "room_id": "!r:a.org", "sender": "@u:a.org", "state_key": "", "origin_server_ts": 3,
             "depth": 5, "prev_events": [], "auth_events": [], "content": {"ban": 50, "users": {"@u:a.org": 100}, "notifications": {"room": 20}, "invite": 0},
             "unsigned": {}})),
+        // an event that already carries hashes (built from a template / hashed before and edited since): the stale sha256 is
+        // replaced, other entries of `hashes` stay
+        ("message_with_stale_hashes", json!({"type": "m.room.message", "room_id": "!r:a.org", "sender": "@u:a.org", "origin_server_ts": 9, "depth": 3,
+            "prev_events": [], "auth_events": [], "content": {"body": "edited", "msgtype": "m.text"}, "hashes": {"sha256": "c3RhbGUgaGFzaA", "md5": "kept"}})),
         ("create", json!({"type": "m.room.create", "room_id": "!r:a.org", "sender": "@u:a.org", "state_key": "", "origin_server_ts": 4,
             "depth": 1, "prev_events": [], "auth_events": [], "content": {"creator": "@u:a.org", "room_version": "9", "x": 1}})),
     ]
@@ -206,6 +210,24 @@ pub fn run(_tier: &str) -> Report {
             match verify_event(&keys, &o, &rules) {
                 Ok(Verified::All) => {}
                 other => fail(&mut f_event_all, json!({"case": d("hash_and_sign then verify is not All"), "got": format!("{:?}", other)})),
+            }
+            // entries of `hashes` other than sha256 are kept
+            if let Some(h0) = ev.get("hashes").and_then(|h| h.as_object()) {
+                let h1 = o.get("hashes").and_then(|h| h.as_object()).cloned().unwrap_or_default();
+                for (k, v) in h0 {
+                    if k != "sha256" && h1.get(k).and_then(|x| x.as_str()) != v.as_str() {
+                        fail(&mut f_event_all, json!({"case": d("an entry of `hashes` other than sha256 was lost"), "entry": k}));
+                    }
+                }
+            }
+            // hashing and signing again after an edit gives All again
+            {
+                let mut o2 = o.clone();
+                o2.insert("extra_after_first_signature".to_owned(), CanonicalJsonValue::Bool(true));
+                hash_and_sign_event("a.org", &a1, &mut o2, &rules.redaction).unwrap();
+                if !matches!(verify_event(&keys, &o2, &rules), Ok(Verified::All)) {
+                    fail(&mut f_event_all, d("hash_and_sign again after an edit is not All (stale content hash kept?)"));
+                }
             }
             // a redacted copy still has valid signatures
             let red = redact(o.clone(), &rules.redaction, None).unwrap();
